@@ -172,7 +172,7 @@ def group_runs(g, tier):
     if g == 'emb':
         return [dict(kind='emb', tspec='Trace_Tree')] + [dict(kind='embdyn', names=nm, tspec='Trace_Tree') for nm in (('ascii', 'prefix2') if q else ('ascii', 'prefix', 'prefix2', 'dotted', 'multi', 'rnd'))]
     if g == 'faults':
-        k = 1 if q else 15
+        k = 2 if q else 20
         cfgs = [('fault(mem)', 60, False), ('alt(zr,fault(mem))', 40, False), ('ovl(fault(mem),mem)', 40, True), ('ovl(mem,fault(mem))', 60, True),
                 ('ovl(fault(mem),mem,mem)', 20, True), ('ovl(mem,mem,fault(mem))', 30, True), ('alt(zr,ovl(fault(mem),mem))', 15, True), ('ovl(alt(zu,fault(mem)),mem)', 15, True)]
         runs = [dict(kind='faults', cfg=c, pairs=n * k, split=sp, names=['ascii', 'prefix', 'dotted'][i % 3], lts='small' if i % 2 == 0 else 'deep', tspec='Trace_Tree') for i, (c, n, sp) in enumerate(cfgs)]
